@@ -340,6 +340,8 @@ ClosureAgrees ==
 Inside(a, b) == b.t0 <= a.t0 /\ a.t1 <= b.t1 /\ b.x0 <= a.x0 /\ a.x1 <= b.x1
 Refines(T1, S1) == \A a \in T1 : \E b \in S1 : Inside(a, b)
 OnlyRefines == [][Refines(Rng(order'), Leaves)]_vars
+\* every successful public call strictly refines (the adaptive loop makes progress)
+StrictProgress == [][err' = "none" => Len(order') > Len(order)]_vars
 
 \* the result of a single bisection is the declarative closure (action property)
 BisectIsClosure ==
@@ -357,20 +359,39 @@ USpaceIsUniform ==
 GradeInWindow ==
   [][(last'.op = "grade" /\ err' = "none") => \A e \in Rng(order') : InWindow(e)]_vars
 
-(* Literal minimality on the smallest configurations: every 1-irregular tiling that refines
-   the mesh and in which e is bisected along ax refines Closure(Leaves, {e}, ax).  FreeRef
-   enumerates all (not necessarily 1-irregular) refinements by up to k free bisections. *)
+(* Minimality on the smallest configurations.  FreeRef enumerates all (not necessarily 1-irregular)
+   refinements by up to k free bisections, FreeRefAx those that bisect along one axis only.
+   TLC shows that the *literal* reading "every 1-irregular refinement containing the bisection refines
+   the closure" is false on anisotropic meshes (bisecting a coarser neighbour first in the other axis
+   gives an incomparable 1-irregular refinement with more leaves); what holds -- and what C02 means by
+   "smallest" -- is: (MinimalAx) among the refinements by bisections along the requested axis the closure
+   is the least one, and (MinimalCard) no 1-irregular refinement containing the bisection has fewer leaves. *)
 RECURSIVE FreeRef(_, _)
 FreeRef(SS, k) ==
   IF k = 0 THEN SS
   ELSE LET step == UNION {{(S \ {e}) \cup Children(e, ax) : e \in S, ax \in {0, 1}} : S \in SS}
            good == {S2 \in step : \A a \in S2 : DyadicOK(a)}
        IN FreeRef(SS \cup {S2 \in good : TilesSet(S2)}, k - 1)
+RECURSIVE FreeRefAx(_, _, _)
+FreeRefAx(SS, k, ax) ==
+  IF k = 0 THEN SS
+  ELSE LET step == UNION {{(S \ {e}) \cup Children(e, ax) : e \in S} : S \in SS}
+           good == {S2 \in step : \A a \in S2 : DyadicOK(a)}
+       IN FreeRefAx(SS \cup good, k - 1, ax)
 MinimalK == 3
-Minimal ==
+MinimalLiteral == Expand =>       \* expected to be violated (see above)
   \A e \in Leaves, ax \in {0, 1} :
      Lvl(e, ax) < MaxL =>
        LET C == Closure(Leaves, {e}, ax) IN
-       \A T1 \in FreeRef({(Leaves \ {e}) \cup Children(e, ax)}, MinimalK) :
-          OneIrrSet(T1) => Refines(T1, C)
+       \A T1 \in FreeRef({(Leaves \ {e}) \cup Children(e, ax)}, MinimalK) : OneIrrSet(T1) => Refines(T1, C)
+MinimalAx == Expand =>
+  \A e \in Leaves, ax \in {0, 1} :
+     Lvl(e, ax) < MaxL =>
+       LET C == Closure(Leaves, {e}, ax) IN
+       \A T1 \in FreeRefAx({(Leaves \ {e}) \cup Children(e, ax)}, MinimalK, ax) : OneIrrSet(T1) => Refines(T1, C)
+MinimalCard == Expand =>
+  \A e \in Leaves, ax \in {0, 1} :
+     Lvl(e, ax) < MaxL =>
+       LET C == Closure(Leaves, {e}, ax) IN
+       \A T1 \in FreeRef({(Leaves \ {e}) \cup Children(e, ax)}, MinimalK) : OneIrrSet(T1) => Cardinality(T1) >= Cardinality(C)
 =============================================================================
